@@ -141,6 +141,7 @@ def getLocationCdb (s : Store) (sep : Bool) (c : ClientNet) (mapID : Bytes) : Re
       | [], _ => .ok (none, 0)
       | m :: rest, ip =>
         if m.toNat > maxMask then go rest ip
+        else if isv4 ∧ m.toNat < 96 then go rest ip      -- IPv6 prefix lengths never match an IPv4 client
         else
           let ip' := Net.maskIP ip m.toNat
           match first s ([0, 0x25] ++ mapID ++ ip' ++ [m]) with
